@@ -4,7 +4,7 @@
    stored filesystem is untouched.  Hypotheses about the overlay are explicit (parent directory
    present, name absent) and shown satisfiable in Props/C06.v. *)
 From AF Require Import Lib.Bytes Lib.Path Lib.Ops Gen.Consts Model.MemFile Model.MemFs Model.ReadOnly
-  Model.Union Model.Cow Proofs.MemFsBasics Proofs.PathProof.
+  Model.Union Model.Cow Proofs.MemFsBasics Proofs.MemBelow Proofs.PathProof.
 Local Open Scope Z_scope.
 
 (* ---------------- small list facts ---------------- *)
@@ -192,16 +192,18 @@ Proof. intros Hl. rewrite m_step_tick. cbn [m_step_raw]. unfold m_stat. now rewr
 (* the key under which registerWithParent looks for the parent of a node called nn *)
 Definition parent_key (nn : str) : str := normalize_path (clean (fst (path_split nn))).
 
-(* Create of a name the overlay lacks, whose parent directory entry exists: a new empty regular
-   file node, a fresh writable handle on it at offset 0 *)
+(* Create of a name the overlay lacks, whose parent entry exists and is a directory (below a regular
+   file MemMapFs answers ENOTDIR): a new empty regular file node, a fresh writable handle on it at
+   offset 0 *)
 Lemma layer_create s name pp pn :
   let nn := normalize_path name in
   lookup s nn = None ->
-  parent_key nn <> nn -> lookup s (parent_key nn) = Some pp -> get_node s pp = Some pn ->
+  parent_key nn <> nn -> lookup s (parent_key nn) = Some pp -> get_node s pp = Some pn -> ndir pn = true ->
   exists s', m_step s (Create name) = (s', RHandle (length (mhandles s))) /\
     LI nn (length (mheap s)) (length (mhandles s)) s' [] 0.
 Proof.
-  intros nn Hno Hpk Hpl Hpn. rewrite m_step_tick. cbn [m_step_raw]. unfold m_create. fold nn. rewrite Hno.
+  intros nn Hno Hpk Hpl Hpn Hpd. rewrite m_step_tick. cbn [m_step_raw]. unfold m_create. fold nn.
+  rewrite Hno, (below_file_parent_dir s nn pp pn Hpl Hpn Hpd).
   unfold m_create_node. cbn [alloc_node].
   set (g := length (mheap s)).
   set (s1 := mkM (mdata s) (mheap s ++ [new_file nn (mclock s)]) (mhandles s) (mclock s)).
@@ -334,10 +336,10 @@ Proof. reflexivity. Qed.
 End Tail.
 
 (* the overlay can take a new regular file called nn: the name is free and the entry
-   registerWithParent will look for exists *)
+   registerWithParent will look for exists and is a directory *)
 Definition create_ready (s : mst) (nn : str) : Prop :=
   lookup s nn = None /\ parent_key nn <> nn /\
-  exists pp pn, lookup s (parent_key nn) = Some pp /\ get_node s pp = Some pn.
+  exists pp pn, lookup s (parent_key nn) = Some pp /\ get_node s pp = Some pn /\ ndir pn = true.
 
 Lemma copy_tail_mem sb1 sl1 name f nd bh :
   let nn := normalize_path name in
@@ -346,8 +348,8 @@ Lemma copy_tail_mem sb1 sl1 name f nd bh :
     fs_view sb' = fs_view sb1 /\ BI f nd bh sb' (zlen (ndata nd)) /\
     LF nn (length (mheap sl1)) sl' (ndata nd) (Some (nmtime nd)).
 Proof.
-  intros nn Hb1 Hbd [Hno [Hpk [pp [pn [Hpl Hpn]]]]]. unfold copy_tail.
-  destruct (layer_create sl1 name pp pn Hno Hpk Hpl Hpn) as [sl2 [Ec Hl2]]. fold nn in Hl2. rewrite Ec.
+  intros nn Hb1 Hbd [Hno [Hpk [pp [pn [Hpl [Hpn Hpd]]]]]]. unfold copy_tail.
+  destruct (layer_create sl1 name pp pn Hno Hpk Hpl Hpn Hpd) as [sl2 [Ec Hl2]]. fold nn in Hl2. rewrite Ec.
   set (lh := length (mhandles sl1)) in *. set (g := length (mheap sl1)) in *.
   destruct (base_hstat f nd bh sb1 0 Hb1) as [sb2 [Es [Hb2 Hv2]]]. rewrite Es.
   destruct (finfo_of_file nd Hbd) as [Hsz Hmt]. rewrite Hsz.
@@ -363,16 +365,18 @@ Proof.
   rewrite Hmt in Hl5. exact Hl5.
 Qed.
 
-(* MkdirAll of a directory the overlay lacks whose own parent entry exists: one new directory node *)
+(* MkdirAll of a directory the overlay lacks whose own parent entry exists and is a directory: one
+   new directory node *)
 Lemma layer_mkdirall_new s dir perm pp pn :
   let dk := normalize_path dir in
-  lookup s dk = None -> parent_key dk <> dk -> lookup s (parent_key dk) = Some pp -> get_node s pp = Some pn ->
+  lookup s dk = None -> parent_key dk <> dk -> lookup s (parent_key dk) = Some pp -> get_node s pp = Some pn -> ndir pn = true ->
   exists s', m_step s (MkdirAll dir perm) = (s', ROk) /\
-    lookup s' dk = Some (length (mheap s)) /\ (exists n, get_node s' (length (mheap s)) = Some n) /\
+    lookup s' dk = Some (length (mheap s)) /\ (exists n, get_node s' (length (mheap s)) = Some n /\ ndir n = true) /\
     (forall k, k <> dk -> lookup s' k = lookup s k) /\
     length (mheap s') = S (length (mheap s)) /\ mhandles s' = mhandles s.
 Proof.
-  intros dk Hno Hpk Hpl Hpn. rewrite m_step_tick. cbn [m_step_raw]. unfold m_mkdirall, m_mkdir. fold dk. rewrite Hno.
+  intros dk Hno Hpk Hpl Hpn Hpd. rewrite m_step_tick. cbn [m_step_raw]. unfold m_mkdirall, m_mkdir. fold dk.
+  rewrite Hno, (below_file_parent_dir s dk pp pn Hpl Hpn Hpd).
   cbn [alloc_node].
   set (g := length (mheap s)). set (pm := Z.land perm chmod_bits).
   set (n0 := with_mode (Z.lor mode_dir pm) (new_dir dk (mclock s))).
@@ -393,7 +397,7 @@ Proof.
   rewrite Hl3.
   rewrite (upd_node_some _ _ _ _ Hg3). cbn [fst snd].
   eexists. split; [reflexivity|]. split; [exact Hl3|]. split.
-  - eexists. unfold tick, get_node. cbn [mheap]. apply (get_node_set_node_eq _ _ _ _ Hg3).
+  - eexists. split; [unfold tick, get_node; cbn [mheap]; apply (get_node_set_node_eq _ _ _ _ Hg3) | reflexivity].
   - split; [|split].
     + intros k Hk. unfold lookup, tick, set_node, s3, set_node, s2, s1. cbn [mdata set_data]. apply alist_get_set_neq. congruence.
     + unfold tick, set_node, s3, set_node, s2, s1. cbn [mheap set_data]. rewrite !cu_list_set_length, app_length. cbn. lia.
@@ -408,8 +412,9 @@ Lemma copy_dir_meaning name :
 Proof. reflexivity. Qed.
 
 (* the two overlay situations covered: (A) the directory part of the name exists in the overlay;
-   (B) it does not, but ITS parent entry does (copyFile then creates one directory level, e.g. the
-   overlay has only "/" and the file is /d/f) *)
+   (B) it does not, but ITS parent directory does (copyFile then creates one directory level, e.g. the
+   overlay has only "/" and the file is /d/f).  "exists" for the entry a new node is registered in
+   means: is a directory — below a regular file MemMapFs creates nothing (ENOTDIR) *)
 Definition overlay_has_dir (s : mst) (name : str) : Prop :=
   (exists d dn, lookup s (normalize_path (copy_dir name)) = Some d /\ get_node s d = Some dn) /\
   create_ready s (normalize_path name).
@@ -417,7 +422,7 @@ Definition overlay_lacks_dir (s : mst) (name : str) : Prop :=
   let dk := normalize_path (copy_dir name) in
   let nn := normalize_path name in
   lookup s dk = None /\ parent_key dk <> dk /\
-  (exists pp pn, lookup s (parent_key dk) = Some pp /\ get_node s pp = Some pn) /\
+  (exists pp pn, lookup s (parent_key dk) = Some pp /\ get_node s pp = Some pn /\ ndir pn = true) /\
   lookup s nn = None /\ parent_key nn = dk /\ dk <> nn.
 Definition copy_up_ready (s : mst) (name : str) : Prop := overlay_has_dir s name \/ overlay_lacks_dir s name.
 
@@ -438,7 +443,7 @@ Proof.
   destruct (base_open sb name f nd Hbl Hbn) as [sb1 [Eo [Hb1 Hv1]]]. rewrite Eo.
   set (bh := length (mhandles sb)) in *.
   rewrite copy_file_tail. cbv zeta. unfold l_exists.
-  destruct Hready as [[[d [dn [Hdl Hdn]]] Hcr] | [Hdno [Hdpk [[pp [pn [Hdpl Hdpn]]] [Hno [Hpk Hne]]]]]].
+  destruct Hready as [[[d [dn [Hdl Hdn]]] Hcr] | [Hdno [Hdpk [[pp [pn [Hdpl [Hdpn Hdpd]]]] [Hno [Hpk Hne]]]]]].
   - (* A *)
     rewrite (layer_stat_ok sl (copy_dir name) d dn Hdl Hdn). cbn [is_not_exist].
     destruct (copy_tail_mem sb1 (tick sl) name f nd bh Hb1 Hbd Hcr) as [sb' [sl' [Et [Hv [Hb' Hlf]]]]].
@@ -446,12 +451,12 @@ Proof.
     split; [reflexivity|]. split; [|exact Hlf]. rewrite (base_close f nd bh sb' _ Hb'). congruence.
   - (* B *)
     rewrite (stat_missing sl (copy_dir name) Hdno). cbn [is_not_exist ek EW].
-    destruct (layer_mkdirall_new (tick sl) (copy_dir name) 511 pp pn Hdno Hdpk Hdpl Hdpn) as [sl1 [Em [Hd1 [[dn1 Hdn1] [Hoth [Hlen Hh]]]]]].
+    destruct (layer_mkdirall_new (tick sl) (copy_dir name) 511 pp pn Hdno Hdpk Hdpl Hdpn Hdpd) as [sl1 [Em [Hd1 [[dn1 [Hdn1 Hdd1]] [Hoth [Hlen Hh]]]]]].
     rewrite Em.
     assert (Hcr : create_ready sl1 nn).
     { unfold nn. split; [rewrite Hoth; [exact Hno | intros Hx; apply Hne; symmetry; exact Hx]|].
       split; [rewrite Hpk; exact Hne|].
-      exists (length (mheap (tick sl))), dn1. split; [|exact Hdn1]. rewrite Hpk. exact Hd1. }
+      exists (length (mheap (tick sl))), dn1. split; [|split; [exact Hdn1 | exact Hdd1]]. rewrite Hpk. exact Hd1. }
     destruct (copy_tail_mem sb1 sl1 name f nd bh Hb1 Hbd Hcr) as [sb' [sl' [Et [Hv [Hb' Hlf]]]]].
     rewrite Et. exists (fst (m_step sb' (HClose bh))), sl', (length (mheap sl1)).
     split; [reflexivity|]. split; [|exact Hlf]. rewrite (base_close f nd bh sb' _ Hb'). congruence.
@@ -670,10 +675,10 @@ Lemma copy_up_ready_meaning s name :
   let nn := normalize_path name in
   ((exists d dn, lookup s dk = Some d /\ get_node s d = Some dn) /\
    lookup s nn = None /\ parent_key nn <> nn /\
-   exists pp pn, lookup s (parent_key nn) = Some pp /\ get_node s pp = Some pn)
+   exists pp pn, lookup s (parent_key nn) = Some pp /\ get_node s pp = Some pn /\ ndir pn = true)
   \/
   (lookup s dk = None /\ parent_key dk <> dk /\
-   (exists pp pn, lookup s (parent_key dk) = Some pp /\ get_node s pp = Some pn) /\
+   (exists pp pn, lookup s (parent_key dk) = Some pp /\ get_node s pp = Some pn /\ ndir pn = true) /\
    lookup s nn = None /\ parent_key nn = dk /\ dk <> nn).
 Proof. reflexivity. Qed.
 
